@@ -12,6 +12,7 @@
 import itertools
 import json
 import math
+import traceback
 import warnings
 from fractions import Fraction
 
@@ -519,9 +520,27 @@ def chk_duschinsky(ctx, case):
                  f"{Uo.tolist()} / {do.tolist()} on {case}", dict(chk="duschinsky", case=case))
 
 
-CHECKS = {"kl_fd": chk_kl_fd, "stoch_fd": chk_stoch_fd, "state": chk_state, "orbit": chk_orbit, "time": chk_time,
-          "vibronic": chk_vibronic, "sample_shape": chk_sample_shape, "marginals": chk_marginals,
-          "duschinsky": chk_duschinsky}
+def guarded(name, chk):
+    """an exception escaping from the code under test on a valid input is a failing input, not a harness crash"""
+    def run_chk(ctx, case):
+        try:
+            chk(ctx, case)
+        except core.Infra:
+            raise
+        except Exception as e:
+            tb = traceback.extract_tb(e.__traceback__)
+            where = next((f"{fr.filename.split('/')[-1]}:{fr.lineno}" for fr in reversed(tb) if "strawberryfields" in fr.filename), "harness")
+            if where == "harness":
+                raise
+            ctx.fail(f"{name}:raises:{type(e).__name__}", f"{type(e).__name__}: {str(e)[:200]} at {where} on {case}",
+                     dict(chk=name, case=case))
+    return run_chk
+
+
+CHECKS = {k: guarded(k, v) for k, v in {
+    "kl_fd": chk_kl_fd, "stoch_fd": chk_stoch_fd, "state": chk_state, "orbit": chk_orbit, "time": chk_time,
+    "vibronic": chk_vibronic, "sample_shape": chk_sample_shape, "marginals": chk_marginals,
+    "duschinsky": chk_duschinsky}.items()}
 
 
 # ------------------------------------------------------------------------------------------ generators
@@ -963,9 +982,9 @@ def oracle_train(ctx):
         if not data:
             continue
         done += 1
-        chk_kl_fd(ctx, dict(case, data=data))
+        CHECKS["kl_fd"](ctx, dict(case, data=data))
         hw = [dy(rng, -8, 8, 4) for _ in range(m + 1)]
-        chk_stoch_fd(ctx, dict(case, samples=data, hw=hw))
+        CHECKS["stoch_fd"](ctx, dict(case, samples=data, hw=hw))
         nt = m >= 2 and any(case["theta"])
         ctx.count("fd:" + ("Exp" if case["exp"] else "ExpFeatures") + f":m={m}", ("fd", case, data), nt, sample=dict(case, data=data))
     for it in range(ctx.n(40, 400)):
@@ -974,7 +993,7 @@ def oracle_train(ctx):
             continue
         case["hbar"] = rng.choice([2, 2, 1, 0.5])
         case["nmax"] = 6 if len(case["A"]) <= 3 else 4
-        chk_state(ctx, case)
+        CHECKS["state"](ctx, case)
         ctx.count("state:" + ("threshold" if case["threshold"] else "pnr") + f":hbar={case['hbar']}", ("state", case),
                   len(case["A"]) >= 2 and any(case["theta"]), sample=case)
 
@@ -998,7 +1017,7 @@ def oracle_similarity(ctx):
         else:
             case = dict(base, photons=photons, max=rng.randint(0, 3))
             kind = "event" + (":has-unfitting-orbit" if case["max"] >= 1 and photons > m else "")
-        chk_orbit(ctx, case)
+        CHECKS["orbit"](ctx, case)
         ctx.count("similarity:" + kind, ("sim", case), photons >= 2, sample=case)
 
 
@@ -1019,7 +1038,7 @@ def oracle_qchem(ctx):
                 fk = [0] * n
                 fk[rng.randrange(n)] = 1
             case.update(fock=fk, Ul=T.rand_orthogonal(nprng, n).tolist())
-        chk_time(ctx, case)
+        CHECKS["time"](ctx, case)
         ctx.count("time:" + ("fock" if "fock" in case else "gaussian"), ("time", case), n >= 2 and case["t"] != 0, sample=case)
     for it in range(ctx.n(30, 300)):
         n = rng.randint(1, 4)
@@ -1033,7 +1052,7 @@ def oracle_qchem(ctx):
         N = n + rng.choice([0, 0, 1])
         case = dict(w=w, wp=wp, Ud=Ud.tolist(), delta=delta, T=rng.choice([0, 0, 1.0, 300.0, float(rng.randint(200, 1500))]),
                     N=N, regs=sorted(rng.sample(range(N), n)))
-        chk_vibronic(ctx, case)
+        CHECKS["vibronic"](ctx, case)
         ctx.count("vibronic:" + kind, ("vibronic", case), n >= 2 and any(delta), sample=case)
     for it in range(ctx.n(6, 40)):
         n = rng.randint(1, 2)
@@ -1043,7 +1062,7 @@ def oracle_qchem(ctx):
             t[rng.randrange(n)] = 0.0
         case = dict(t=t, r=[dy(rng, -2, 2, 8) for _ in range(n)], alpha=[dy(rng, 0, 4, 8) for _ in range(n)], shots=2,
                     seed=rng.randint(0, 10 ** 6))
-        chk_sample_shape(ctx, case)
+        CHECKS["sample_shape"](ctx, case)
         ctx.count("vibronic.sample:" + tk, ("shape", case), n >= 2)
     from lib import sim
     for it in range(ctx.n(5, 50)):
@@ -1052,7 +1071,7 @@ def oracle_qchem(ctx):
                                          classes=["Rgate", "Sgate", "Dgate", "BSgate", "LossChannel", "Coherent", "Squeezed",
                                                   "Thermal", "S2gate"])
         case = dict(spec=spec, nmax=rng.randint(1, 6), hbar=rng.choice([2.0, 2.0, 1.0, 0.5]), cutoff=16)
-        chk_marginals(ctx, case)
+        CHECKS["marginals"](ctx, case)
         ctx.count("marginals", ("marg", case), n >= 2)
     for it in range(ctx.n(10, 80)):
         na, M = rng.randint(1, 3), rng.randint(1, 3)
@@ -1060,7 +1079,7 @@ def oracle_qchem(ctx):
                     ri=nprng.normal(size=3 * na).round(4).tolist(), rf=nprng.normal(size=3 * na).round(4).tolist(),
                     wf=[float(rng.randint(100, 4000)) for _ in range(M)],
                     m=[x for a in range(na) for x in [float(rng.choice([1.0078, 12.0, 15.9949, 11.0093]))] * 3])
-        chk_duschinsky(ctx, case)
+        CHECKS["duschinsky"](ctx, case)
         ctx.count("duschinsky", ("dusch", case), M >= 2)
 
 
@@ -1088,11 +1107,21 @@ def run(ctx, sf):
         CHECKS[item["chk"]](ctx, item["case"])
         ctx.count("corpus:" + item["chk"], ("corpus", item), True)
     B = Batch(ctx)
-    corr_embed(ctx, B)
-    corr_param(ctx, B, sf)
-    corr_cost(ctx, B, sf)
-    corr_qchem(ctx, B, sf)
-    corr_similarity(ctx, B)
+    for name, section in (("embed", lambda: corr_embed(ctx, B)), ("param", lambda: corr_param(ctx, B, sf)),
+                          ("cost", lambda: corr_cost(ctx, B, sf)), ("qchem", lambda: corr_qchem(ctx, B, sf)),
+                          ("similarity", lambda: corr_similarity(ctx, B))):
+        try:
+            section()
+        except core.Infra:
+            raise
+        except Exception as e:
+            tb = traceback.extract_tb(e.__traceback__)
+            if not any("strawberryfields" in fr.filename for fr in tb):
+                raise                                    # a harness bug stays an infrastructure error
+            ctx.disagree(f"{name}: the implementation raised {type(e).__name__}", dict(section=name),
+                         None, traceback.format_exc()[-1500:])
+        finally:
+            sf.hbar = 2
     B.flush()
     oracle_train(ctx)
     oracle_similarity(ctx)
